@@ -44,7 +44,8 @@ FRAME_STEPS = {
 }
 STARTS_DATA = ('frag-text', 'frag-bin', 'text', 'text-euro', 'binary', 'empty-text', 'two', 'ping-text-close', 'ctext', 'cfrag-text')
 COMPRESSED_STEPS = ('ctext', 'cfrag-text')
-HS_STEPS = ('hs-ok', 'hs-split', 'hs-with-frame', 'hs-404', 'hs-bad-accept', 'hs-oversize', 'hs-deflate', 'hs-deflate-nct')
+HS_STEPS = ('hs-ok', 'hs-split', 'hs-with-frame', 'hs-404', 'hs-bad-accept', 'hs-oversize', 'hs-deflate', 'hs-deflate-nct', 'hs-404-with-frame',
+            'hs-bad-accept-with-frame')
 ENV_STEPS = ('eof', 'err', 'silence')
 
 APP_ACTIONS = {
@@ -236,6 +237,13 @@ class ConnModel(object):
         if name == 'hs-404':
             self.queue.append(('rejected',))
             return W.Data(b'HTTP/1.1 404 Not Found\r\nContent-Length: 0\r\n\r\n')
+        if name == 'hs-404-with-frame':
+            # frames in the same read as a refused reply are never delivered
+            self.queue.append(('rejected',))
+            return W.Data(b'HTTP/1.1 404 Not Found\r\nContent-Length: 0\r\n\r\n' + SFrame(TEXT, b'leak').encode() + SFrame(PING, b'lk').encode())
+        if name == 'hs-bad-accept-with-frame':
+            self.queue.append(('rejected',))
+            return W.Data(W.handshake_reply(req, accept=b'AAAAAAAAAAAAAAAAAAAAAAAAAAA=') + SFrame(BINARY, b'leak').encode())
         if name == 'hs-bad-accept':
             self.queue.append(('rejected',))
             return W.Data(W.handshake_reply(req, accept=b'AAAAAAAAAAAAAAAAAAAAAAAAAAA='))
